@@ -16,6 +16,7 @@ import tempfile
 from ..runner import Result
 from ..domains import estimates as E
 
+TWO_HASH_SEEDS = ('quick', 'thorough')   # tiers in which the space is walked under a second PYTHONHASHSEED
 LEVEL = 'exploration'
 H_UNITS = ['kcal/mol', 'kJ/mol', 'J/mol', 'cal/mol', 'eV/molecule']
 S_UNITS = ['cal/(mol*K)', 'J/mol/K', 'kJ/(mol K)', 'cal/mol/K']
